@@ -252,7 +252,9 @@ def main():
                                 'detail': repr(e), 'input': None})
     # 5. broken obligation -> search for a failing input
     failures = list(res['failures'])
-    if broken and not any(f['kind'] in ('prop', 'corr') for f in failures):
+    ksig = {e['signature'] for e in C.known_findings(pid)}
+    new_fail = [f for f in failures if f.get('signature') not in ksig]     # failures not suppressed as known findings
+    if broken and not any(f['kind'] in ('prop', 'corr') for f in new_fail):
         try:
             found = mod.search(ctx, broken) if hasattr(mod, 'search') else None
         except Exception as e:  # noqa
